@@ -14,6 +14,7 @@ pub uninterp spec fn key_text(k: SKey) -> Seq<char>;
 /// Uninterpreted on the Verus side; the real helper that computes it is proved bit-precisely by Kani.
 pub uninterp spec fn icmpf(i: int, f: f64) -> Option<Ordering>;
 
+#[verifier::opaque]
 pub open spec fn op_index(s: Seq<char>) -> int {
     if s == operators::CONDITIONAL@ { 1 }
     else if s == operators::LOGICAL_AND@ { 2 }
@@ -59,6 +60,7 @@ pub proof fn lemma_operator_names()
         op_index(operators::NOT_STRICTLY_FALSE@) == 18,
         op_index(operators::IN@) == 19,
 {
+    reveal(op_index);
     broadcast use vstd::string::group_string_axioms;
     reveal_strlit("_?_:_");
     reveal_strlit("_&&_");
@@ -126,6 +128,7 @@ pub open spec fn int_cmp(a: int, b: int) -> Ordering {
     if a < b { Ordering::Less } else if a == b { Ordering::Equal } else { Ordering::Greater }
 }
 /// strings compare by code point (lexicographic over the characters)
+#[verifier::opaque]
 pub open spec fn str_cmp(a: Seq<char>, b: Seq<char>) -> Ordering
     decreases a.len()
 {
@@ -137,6 +140,7 @@ pub open spec fn str_cmp(a: Seq<char>, b: Seq<char>) -> Ordering
 }
 
 /// property C09: ordering. None = not orderable.
+#[verifier::opaque]
 pub open spec fn vcmp(a: SVal, b: SVal) -> Option<Ordering> {
     match (a, b) {
         (SVal::Int(x), SVal::Int(y)) => Some(int_cmp(x, y)),
@@ -157,6 +161,7 @@ pub open spec fn vcmp(a: SVal, b: SVal) -> Option<Ordering> {
     }
 }
 /// property C09: equality. Numbers compare by the number denoted; containers element-wise; unrelated kinds unequal.
+#[verifier::opaque]
 pub open spec fn veq(a: SVal, b: SVal) -> bool
     decreases a
 {
@@ -213,10 +218,12 @@ pub open spec fn mget(m: vstd::map::Map<SKey, SVal>, k: SKey) -> Option<SVal> {
 pub open spec fn present(m: vstd::map::Map<SKey, SVal>, k: SKey) -> bool { mget(m, k) is Some }
 
 /// `x in l` holds iff some element of l equals x
+#[verifier::opaque]
 pub open spec fn list_has(v: Seq<SVal>, x: SVal) -> bool { exists|i: int| 0 <= i < v.len() && veq(#[trigger] v[i], x) }
 pub proof fn lemma_list_has(v: Seq<Value>, x: Value)
     ensures list_has(vlist(v), vview(x)) == (exists|i: int| 0 <= i < v.len() && veq(vview(#[trigger] v[i]), vview(x)))
 {
+    reveal(list_has);
     assert forall|i: int| 0 <= i < v.len() implies #[trigger] vlist(v)[i] == vview(v[i]) by {}
     if list_has(vlist(v), vview(x)) {
         let i = choose|i: int| 0 <= i < vlist(v).len() && veq(#[trigger] vlist(v)[i], vview(x));
@@ -227,6 +234,7 @@ pub proof fn lemma_list_has(v: Seq<Value>, x: Value)
         assert(veq(vlist(v)[i], vview(x)));
     }
 }
+#[verifier::opaque]
 pub open spec fn in_spec(l: SVal, r: SVal) -> SRes {
     match (l, r) {
         (SVal::Str(a), SVal::Str(b)) => Ok(SVal::Bool(str_contains(b, a))),
@@ -235,6 +243,7 @@ pub open spec fn in_spec(l: SVal, r: SVal) -> SRes {
         _ => Err(ErrClass::NotComparable),
     }
 }
+#[verifier::opaque]
 pub open spec fn index_spec(v: SVal, idx: SVal) -> SRes {
     match (v, idx) {
         (SVal::List(items), SVal::Int(i)) => if 0 <= i < items.len() { Ok(items[i]) } else { Ok(SVal::Null) },
@@ -263,6 +272,7 @@ pub open spec fn binop_spec(op: BinOp, l: SVal, r: SVal) -> SRes {
         BinOp::Index => index_spec(l, r),
     }
 }
+#[verifier::opaque]
 pub open spec fn member_spec(v: SVal, field: Seq<char>, fs: Funcs) -> SRes {
     let child = match v { SVal::Map(m) => if m.contains_key(SKey::Str(field)) { Some(m[SKey::Str(field)]) } else { None }, _ => None };
     match child {
@@ -270,6 +280,7 @@ pub open spec fn member_spec(v: SVal, field: Seq<char>, fs: Funcs) -> SRes {
         None => if fs.contains_key(field) { Ok(SVal::Function(field, Some(Box::new(v)))) } else { Err(ErrClass::NoSuchKey) },
     }
 }
+#[verifier::opaque]
 pub open spec fn has_spec(v: SVal, field: Seq<char>) -> SVal {
     match v {
         SVal::Map(m) => SVal::Bool(exists|k: SKey| m.contains_key(k) && #[trigger] key_text(k) == field),
@@ -398,6 +409,8 @@ pub open spec fn in_fragment(e: IdedExpr) -> bool
             || (c.args@.len() == 1 && is_operator_form(c) && in_fragment(c.args@[0]))
             || (!is_operator_form(c) && (c.target matches Some(t) ==> in_fragment(*t)))
         }
+        Expr::List(l) => forall|i: int| 0 <= i < l.elements@.len() ==> in_fragment(#[trigger] l.elements@[i]),
+        Expr::Map(m) => forall|i: int| 0 <= i < m.entries@.len() ==> ((#[trigger] m.entries@[i]).expr matches EntryExpr::MapEntry(en) && in_fragment(en.key) && in_fragment(en.value)),
         _ => false,
     }
 }
@@ -415,5 +428,55 @@ pub open spec fn ast_wf(e: IdedExpr) -> bool
         Expr::Map(m) => forall|i: int| 0 <= i < m.entries@.len() ==> ((#[trigger] m.entries@[i]).expr matches EntryExpr::MapEntry(en) && ast_wf(en.key) && ast_wf(en.value)),
         Expr::Comprehension(c) => ast_wf(*c.accu_init) && ast_wf(*c.iter_range) && ast_wf(*c.loop_cond) && ast_wf(*c.loop_step) && ast_wf(*c.result),
         Expr::Struct(_) => true,
+    }
+}
+
+pub broadcast proof fn lemma_amap_insert(m: vstd::map::Map<Key, Value>, k: Key, v: Value)
+    ensures #[trigger] amap(m.insert(k, v)) =~= amap(m).insert(kview(k), vview(v))
+{
+    let m2 = m.insert(k, v);
+    let l = amap(m2); let r = amap(m).insert(kview(k), vview(v));
+    assert forall|sk: SKey| l.contains_key(sk) == r.contains_key(sk) by {
+        lemma_amap_dom(m2, sk); lemma_amap_dom(m, sk);
+        if l.contains_key(sk) {
+            let k2 = choose|k2: Key| m2.contains_key(k2) && kview(k2) == sk;
+            if k2 != k { assert(m.contains_key(k2)); }
+        }
+        if r.contains_key(sk) && sk != kview(k) {
+            let k2 = choose|k2: Key| m.contains_key(k2) && kview(k2) == sk;
+            assert(m2.contains_key(k2));
+        }
+        if sk == kview(k) { assert(m2.contains_key(k)); }
+    }
+    assert forall|sk: SKey| l.contains_key(sk) implies l[sk] == r[sk] by {
+        lemma_amap_dom(m2, sk);
+        let k2 = choose|k2: Key| m2.contains_key(k2) && kview(k2) == sk;
+        lemma_amap_get(m2, k2);
+        if k2 != k {
+            lemma_amap_get(m, k2);
+            if kview(k2) == kview(k) { lemma_kview_injective(k2, k); }
+        }
+    }
+}
+pub proof fn lemma_amap_empty()
+    ensures amap(vstd::map::Map::<Key, Value>::empty()) =~= vstd::map::Map::<SKey, SVal>::empty()
+{
+    assert forall|sk: SKey| !amap(vstd::map::Map::<Key, Value>::empty()).contains_key(sk) by {
+        lemma_amap_dom(vstd::map::Map::<Key, Value>::empty(), sk);
+    }
+}
+pub proof fn lemma_value_key(v: Value)
+    ensures match value_key(v) { Some(k) => to_key(vview(v)) == Some(kview(k)), None => to_key(vview(v)) is None }
+{
+}
+
+pub proof fn lemma_ev_elems_step(l: ListExpr, k: int, env: Env, fs: Funcs, pre: Seq<SVal>, v: SVal)
+    requires 0 <= k < l.elements@.len(), ev(l.elements@[k], env, fs) == Ok::<SVal, ErrClass>(v)
+    ensures (match ev_elems(l, k, env, fs) { Err(x) => Err::<Seq<SVal>, ErrClass>(x), Ok(rest) => Ok(pre + rest) })
+         == (match ev_elems(l, k + 1, env, fs) { Err(x) => Err::<Seq<SVal>, ErrClass>(x), Ok(rest) => Ok(pre.push(v) + rest) })
+{
+    match ev_elems(l, k + 1, env, fs) {
+        Ok(rest) => { assert(pre + (seq![v] + rest) =~= pre.push(v) + rest); }
+        Err(_) => {}
     }
 }
